@@ -429,6 +429,10 @@ def invoke (w : World) (wt : Watcher) (evs : List (String × Val × Val)) : Worl
     (w, if skipEvents w wt.fn.changed evs then Option.none else some (wt.fn.owner, wt.fn.method))
   | _ => (w, some (wt.fn.owner, wt.fn.method))
 
+def World.logInv (w : World) : Option (Nat × String) → World
+  | some e => { w with log := w.log ++ [e] }
+  | Option.none => w
+
 /-- the dispatch loop of `Parameter.__set__` outside a batch: `_call_watcher` for every watcher of the
 (sorted copy of the) list; `onlychanged` watchers see only changes -/
 def dispatch (w : World) (p : String) (old new : Val) : List Watcher → World
@@ -437,10 +441,7 @@ def dispatch (w : World) (p : String) (old new : Val) : List Watcher → World
     if valEq w.cells old new then dispatch w p old new rest
     else
       let (w, inv) := invoke w wt [(p, old, new)]
-      let w := match inv with
-        | some e => { w with log := w.log ++ [e] }
-        | Option.none => w
-      dispatch w p old new rest
+      dispatch (w.logInv inv) p old new rest
 
 /-! ### operations -/
 
@@ -611,7 +612,7 @@ def updateOne (w : World) (o : Nat) (c : ClassDef) (p : String) (a : Arg)
       let w := w.updateDeps o (some p) c.methods
       let ws := sortByPrec (((w.objs[o]?).bind (fun ob => lookup ob.watchers p)).getD [])
       if valEq w.cells old v || ws.isEmpty then some (w, evs, queued)
-      else some (w, insert evs p (old, v), ws.foldl (fun q wt => if q.contains wt then q else q ++ [wt]) queued)
+      else some (w, insert evs p (old, v), ws.foldl (fun q wt => if wt ∈ q then q else q ++ [wt]) queued)
     | _, _ => Option.none
   else Option.none
 
@@ -631,10 +632,7 @@ def flush (w : World) (evs : List (String × Val × Val)) : List Watcher → Wor
   | wt :: rest =>
     let mine := wt.names.filterMap fun n => (lookup evs n).map fun e => (n, e)
     let (w, inv) := invoke w wt mine
-    let w := match inv with
-      | some e => { w with log := w.log ++ [e] }
-      | Option.none => w
-    flush w evs rest
+    flush (w.logInv inv) evs rest
 
 /-- `obj.param.update(p=v, ..)` -- src: Parameters._update, _call_watcher (batched), _batch_call_watchers -/
 def doUpdate (w : World) (o : Nat) (kvs : List (String × Arg)) : Except Err World :=
